@@ -156,7 +156,15 @@ func (in *inliner) run(pk string) bool {
 					if fd.Recv != nil && len(fd.Recv.List) == 1 {
 						recv = fd.Recv.List[0]
 					}
-					cands[obj] = &inlCallee{name: key, recv: recv, typ: fd.Type, body: fd.Body, info: p.TypesInfo, obj: obj, file: f, sig: sig, hasDefer: hasDefer(fd.Body)}
+					body := fd.Body
+					if hasDefer(body) {
+						// `defer t.Stop()` of a timer / ticker: run it at every return instead, so that the helper can be
+						// expanded in statement form (no panics are caught there; the results returned are plain operands)
+						if nb, ok := undeferTimerStops(p.TypesInfo, body); ok {
+							body = nb
+						}
+					}
+					cands[obj] = &inlCallee{name: key, recv: recv, typ: fd.Type, body: body, info: p.TypesInfo, obj: obj, file: f, sig: sig, hasDefer: hasDefer(body)}
 				}
 			}
 			// named local closures:  name := func(...) {...}
@@ -532,6 +540,18 @@ func (in *inliner) tryInline(file *ast.File, fd *ast.FuncDecl, s, next ast.Stmt,
 		// error propagation threading
 		var thread *threadSpec
 		if ifs, ok := next.(*ast.IfStmt); ok && ifs.Init == nil && ifs.Else == nil && terminating(ifs.Body) && !containsLabel(ifs.Body) {
+			// x, ok := f(); if !ok { … }   (threaded: a `return …, false` of f continues in the branch)
+			if ue, isU := ifs.Cond.(*ast.UnaryExpr); isU && ue.Op == token.NOT {
+				if xi, ok := ue.X.(*ast.Ident); ok {
+					for i, l := range st.Lhs {
+						if li, ok := l.(*ast.Ident); ok && li.Name == xi.Name {
+							if b, isB := cd.sig.Results().At(i).Type().Underlying().(*types.Basic); isB && b.Kind() == types.Bool {
+								thread = &threadSpec{kind: "notok", resIdx: i, lhs: st.Lhs, body: ifs.Body}
+							}
+						}
+					}
+				}
+			}
 			if be, ok := ifs.Cond.(*ast.BinaryExpr); ok && be.Op == token.NEQ {
 				if xi, ok := be.X.(*ast.Ident); ok {
 					if yi, ok := be.Y.(*ast.Ident); ok && yi.Name == "nil" {
@@ -597,6 +617,13 @@ func (in *inliner) tryInline(file *ast.File, fd *ast.FuncDecl, s, next ast.Stmt,
 			return nil, false, false
 		}
 		cond, neg := isNot(st.Cond)
+		for {
+			pe, isP := cond.(*ast.ParenExpr)
+			if !isP {
+				break
+			}
+			cond = pe.X
+		}
 		ce, ok := cond.(*ast.CallExpr)
 		if !ok {
 			return nil, false, false
@@ -924,6 +951,17 @@ func (in *inliner) expand(file *ast.File, cd *inlCallee, recv ast.Expr, ce *ast.
 					// success path: falls to the continuation
 				} else if obviouslyNonNilError(e) {
 					// assign the caller's variables, then continue in the propagation branch
+					out = append(out, &ast.AssignStmt{Lhs: cloneExprs(thread.lhs), Tok: token.ASSIGN, Rhs: ex.resultExprs()})
+					out = append(out, cloneNode(thread.body, nil, nil).(*ast.BlockStmt))
+					threaded = true
+				} else {
+					ex.allThreaded = false
+				}
+			case "notok":
+				e := vals[thread.resIdx]
+				if id, ok := e.(*ast.Ident); ok && id.Name == "true" {
+					// success path: falls to the continuation
+				} else if ok && id.Name == "false" {
 					out = append(out, &ast.AssignStmt{Lhs: cloneExprs(thread.lhs), Tok: token.ASSIGN, Rhs: ex.resultExprs()})
 					out = append(out, cloneNode(thread.body, nil, nil).(*ast.BlockStmt))
 					threaded = true
@@ -1411,4 +1449,112 @@ func (in *inliner) iifeCalls(file *ast.File, fd *ast.FuncDecl, cands map[types.O
 		return false
 	}, nil)
 	return did
+}
+
+// undeferTimerStops: if every defer of body is a top-level `defer x.Stop()` on a *time.Timer / *time.Ticker held in a
+// local variable, and every return returns plain operands, a copy of body in which the defers are removed and the
+// Stop calls (in reverse order) precede each return and the end of the body.
+func undeferTimerStops(info *types.Info, body *ast.BlockStmt) (*ast.BlockStmt, bool) {
+	var stops []*ast.CallExpr
+	for _, s := range body.List {
+		ds, ok := s.(*ast.DeferStmt)
+		if !ok {
+			continue
+		}
+		sel, ok := ds.Call.Fun.(*ast.SelectorExpr)
+		if !ok || sel.Sel.Name != "Stop" || len(ds.Call.Args) != 0 {
+			return nil, false
+		}
+		id, ok := sel.X.(*ast.Ident)
+		if !ok {
+			return nil, false
+		}
+		t := info.TypeOf(id)
+		if t == nil || (t.String() != "*time.Timer" && t.String() != "*time.Ticker") {
+			return nil, false
+		}
+		stops = append(stops, ds.Call)
+	}
+	if len(stops) == 0 {
+		return nil, false
+	}
+	// no other defers (nested), plain returns only
+	n := 0
+	okRet := true
+	ast.Inspect(body, func(m ast.Node) bool {
+		switch x := m.(type) {
+		case *ast.FuncLit:
+			return false
+		case *ast.DeferStmt:
+			n++
+		case *ast.ReturnStmt:
+			for _, e := range x.Results {
+				if !plainOperand(e) {
+					okRet = false
+				}
+			}
+		}
+		return true
+	})
+	if n != len(stops) || !okRet {
+		return nil, false
+	}
+	// edit in place (the original identifier nodes keep their type information; copies of the Stop calls are
+	// registered with the objects of the originals)
+	nb := body
+	var list []ast.Stmt
+	for _, s := range nb.List {
+		if _, ok := s.(*ast.DeferStmt); !ok {
+			list = append(list, s)
+		}
+	}
+	nb.List = list
+	copyCall := func(ce *ast.CallExpr) *ast.CallExpr {
+		sel := ce.Fun.(*ast.SelectorExpr)
+		id := sel.X.(*ast.Ident)
+		nid := &ast.Ident{NamePos: id.NamePos, Name: id.Name}
+		if obj := info.Uses[id]; obj != nil {
+			info.Uses[nid] = obj
+		}
+		nsel := &ast.Ident{NamePos: sel.Sel.NamePos, Name: sel.Sel.Name}
+		if obj := info.Uses[sel.Sel]; obj != nil {
+			info.Uses[nsel] = obj
+		}
+		return &ast.CallExpr{Fun: &ast.SelectorExpr{X: nid, Sel: nsel}, Lparen: ce.Lparen, Rparen: ce.Rparen}
+	}
+	mk := func() []ast.Stmt {
+		var out []ast.Stmt
+		for i := len(stops) - 1; i >= 0; i-- {
+			out = append(out, &ast.ExprStmt{X: copyCall(stops[i])})
+		}
+		return out
+	}
+	var fix func(list []ast.Stmt) []ast.Stmt
+	fix = func(list []ast.Stmt) []ast.Stmt {
+		var out []ast.Stmt
+		for _, s := range list {
+			if _, ok := s.(*ast.ReturnStmt); ok {
+				out = append(out, mk()...)
+			}
+			out = append(out, s)
+		}
+		return out
+	}
+	ast.Inspect(nb, func(m ast.Node) bool {
+		switch x := m.(type) {
+		case *ast.FuncLit:
+			return false
+		case *ast.BlockStmt:
+			x.List = fix(x.List)
+		case *ast.CaseClause:
+			x.Body = fix(x.Body)
+		case *ast.CommClause:
+			x.Body = fix(x.Body)
+		}
+		return true
+	})
+	if len(nb.List) == 0 || !terminating(nb) {
+		nb.List = append(nb.List, mk()...)
+	}
+	return nb, true
 }
